@@ -292,8 +292,8 @@ pub fn run(tier: &str) -> Result<Report, String> {
     // / consist of the quantifier symbols (p53, HIV, V, 3x, ...), names of canonical variables (var0) and
     // such labels, in every operand position
     {
-        let names = ["p53", "HIV", "V", "3x", "a3", "x", "V3", "EXa", "A", "E", "var0", "var1", "in"];
-        let labels = ["3", "V", "d3", "dV", "var0", "x"];
+        let names = ["p53", "HIV", "V", "3x", "a3", "x", "V3", "EXa", "A", "E", "var0", "var1", "in", "é", "stabilní", "細胞", "𝔸b"];
+        let labels = ["3", "V", "d3", "dV", "var0", "x", "é_2", "細胞"];
         let shapes = [
             "(N & a)", "(a & N)", "(N EU {x})", "({x} AW N)", "(~ N)", "(N => (AX N))", "(!{x}: (N & {x}))", "(!{x}: ({x} | N))", "(3{x} in %L%: (@{x}: (N ^ {x})))",
             "(%L% & N)", "(N <=> %L%)", "(V{x} in %L%: (N AU {x}))", "(!{x}: (!{xx}: ((N & {xx}) EW {x})))",
@@ -464,6 +464,6 @@ pub fn run(tier: &str) -> Result<Report, String> {
     rep.violations.extend(lb.into_iter().take(40));
     rep.sample(json!({"subtree": "(AX {xx})", "canonical": get_canonical("(AX {xx})".to_string())}));
     rep.sample(json!({"marking_list": [pool[1].render(), pool[5].render()]}));
-    rep.rule = format!("every distinct sub-tree of every well-scoped, preprocessed formula with <= {s_max} nodes (plain alphabet) / <= 4 nodes (with wild-cards and two domain labels), of every closed formula with <= 7 (thorough 8) nodes over the tiny alphabet {{a, AX, &, 3, @}} (sibling quantifiers sharing a depth name), of the template families and of 13 operand-position shapes x 13 identifier shapes (p53, HIV, V, 3x, var0, ...) x 6 label shapes: canonical form vs independent normal form as a partition (= all pairs), explicit all-pairs structural alpha-equivalence on up to {cap} sub-trees, renaming total/injective/consistent on free variables, idempotence; duplicate marking of every single formula and of every list of <= 3 formulae over a {n}-formula pool (collision alphabet + jump/domain shapes) against an independent occurrence count with domains of free variables; distinct_nontrivial = number of alpha-equivalence classes");
+    rep.rule = format!("every distinct sub-tree of every well-scoped, preprocessed formula with <= {s_max} nodes (plain alphabet) / <= 4 nodes (with wild-cards and two domain labels), of every closed formula with <= 7 (thorough 8) nodes over the tiny alphabet {{a, AX, &, 3, @}} (sibling quantifiers sharing a depth name), of the template families and of 13 operand-position shapes x 17 identifier shapes (p53, HIV, V, 3x, var0, non-ASCII names, ...) x 8 label shapes: canonical form vs independent normal form as a partition (= all pairs), explicit all-pairs structural alpha-equivalence on up to {cap} sub-trees, renaming total/injective/consistent on free variables, idempotence; duplicate marking of every single formula and of every list of <= 3 formulae over a {n}-formula pool (collision alphabet + jump/domain shapes) against an independent occurrence count with domains of free variables; distinct_nontrivial = number of alpha-equivalence classes");
     Ok(rep)
 }
